@@ -25,7 +25,7 @@ from vf import tlc, par, ir_expr
 from vf.core import MachineryError, exc_record
 
 META = {
-    "ready": False,
+    "ready": True,
     "category": "model_checking",
     "technique": "TLA+ spec (ExprSyntax.tla: precedence table as data, table-driven printer, grammar-layer reference reader, all-bracketings reader, exact rational/Boolean semantics) model-checked by TLC; every printed token string parsed by the real front end and the AST evaluated exactly (oracle mode)",
     "text": "TLC checks on every typed expression tree of the bounded family (all trees with <=2 operators over the full operator set incl. element-wise forms, relations, not/and/or, if/elseif, builtin calls; 3 operators over one operator per precedence level; thorough: all trees with <=3 operators, 4 operators over representatives, random deeper trees) that the table-driven printing read back by the layered reference reader gives the same tree and values, that the reading is a bracketing of the token string and the only one with that printing, and picks a distinguishing environment; every token string (minimal, one redundant pair at each node, fully parenthesised, literal leaves, elseif spelling) is parsed by pymoca and evaluated in 6 environments against TLC's exact values; number/string/Boolean literal forms are compared by type and exact value.",
